@@ -29,6 +29,14 @@ Inductive slot := SlotCwtf | SlotPredict | SlotTf (c : string).
 Definition slot_name (k : slot) : string :=
   match k with SlotCwtf => CWTF | SlotPredict => PREDICT | SlotTf c => tfname c end.
 
+(* one entry of the input list of register_multiple_tables / Linker(input_tables, ...): a table handed over by NAME
+   (it already lives in the database; nothing is registered) or a data frame (registered under its alias) *)
+Inductive reg_item := RByName (table : string) | RFrame (ver : nat).
+Definition is_frame (i : reg_item) : bool := match i with RFrame _ => true | RByName _ => false end.
+(* aliases of one call are pairwise different up to letter case *)
+Fixpoint ci_distinct (l : list string) : bool :=
+  match l with [] => true | a :: r => negb (existsb (ci_eqb a) r) && ci_distinct r end.
+
 Section Catalog.
   Variable K : Type.
   Variable keqb : K -> K -> bool.
@@ -38,6 +46,11 @@ Section Catalog.
   | COp (o : op)
   | CRegisterTable (name : string) (overwrite : bool) (ver : nat)
       (* register_table(dataframe, name, overwrite); also Linker(dataframe, ..., input_table_aliases=[name]) *)
+  | CRegisterMultiple (items : list reg_item) (aliases : list string) (overwrite : bool)
+      (* db_api.register_multiple_tables(items, aliases, overwrite); Linker([name, frame, ...], ..., input_table_aliases=aliases)
+         is this call with overwrite=False, Linker([...]) without aliases is this call with aliases
+         __splink__input_table_<i> and overwrite=True.  Item i and alias i belong together: a by-name item keeps its
+         position (and its alias is only a label), so the clash check and the registration of a frame use the SAME alias *)
   | CRegisterByName (k : slot) (name : string)
       (* register_table_input_nodes_concat_with_tf / register_table_predict / register_term_frequency_lookup called
          with the NAME of a table that already exists: nothing is created, the cache slot now points at that table *)
@@ -55,6 +68,31 @@ Section Catalog.
     match p with PL _ (LPlain n) => ci_eqb n name | _ => false end.
   Definition name_taken (db : db_t K) (name : string) : bool := existsb (fun kv => same_name name (fst kv)) db.
 
+  (* register_multiple_tables, statement by statement.  Loop 1 (`for table, alias in zip(input_tables, input_aliases)`):
+     by-name items are skipped; for a frame whose alias exists: overwrite=False -> remember the alias (ValueError after
+     the loop, nothing has changed), overwrite=True -> delete_table_from_database(alias). *)
+  Definition drop_name (db : db_t K) (name : string) : db_t K :=
+    filter (fun kv => negb (same_name name (fst kv))) db.
+  Definition reg_clashes (db : db_t K) (pairs : list (reg_item * string)) : list string :=
+    map snd (filter (fun p => is_frame (fst p) && name_taken db (snd p)) pairs).
+  Definition reg_drop_existing (db : db_t K) (pairs : list (reg_item * string)) : db_t K :=
+    fold_left (fun d p => if is_frame (fst p) && name_taken d (snd p) then drop_name d (snd p) else d) pairs db.
+  (* Loop 2 (same zip): frames are registered under their alias; by-name items only get a frame object *)
+  Definition reg_frames (s : state K) (pairs : list (reg_item * string)) : state K :=
+    fold_left (fun s p => match fst p with
+                          | RFrame ver => register_leaf s (LPlain (snd p)) (PInput (snd p) ver)
+                          | RByName _ => s
+                          end) pairs s.
+  Definition register_multiple (s : state K) (items : list reg_item) (aliases : list string) (ow : bool)
+    : state K * list event :=
+    let pairs := combine items aliases in
+    let clashes := reg_clashes (st_db K s) pairs in
+    if ow then (reg_frames (set_db K s (reg_drop_existing (st_db K s) pairs)) pairs, [])
+    else match clashes with
+         | [] => (reg_frames s pairs, [])
+         | _ => (s, map Refused clashes)
+         end.
+
   Definition cstep (s : state K) (c : cop) : state K * list event :=
     match c with
     | COp o => let '(s', _, tr) := run_op K keqb hash s o in (s', tr)
@@ -66,6 +104,7 @@ Section Catalog.
             (register_leaf (set_db K s db') (LPlain name) (PInput name ver), [])
           else (s, [Refused name])
         else (register_leaf s (LPlain name) (PInput name ver), [])
+    | CRegisterMultiple items aliases ow => register_multiple s items aliases ow
     | CRegisterByName k name =>
         let l := LPlain name in
         let h := {| h_templ := slot_name k; h_phys := PL K l; h_src := Leaf l; h_cbs := false |} in
@@ -117,6 +156,7 @@ Section Catalog.
     match c with
     | COp o => op_ok_hashed o && negb (match o with ChangeInputInvalidate _ => true | _ => false end)
     | CRegisterTable _ ow _ => negb ow
+    | CRegisterMultiple _ aliases ow => negb ow && ci_distinct aliases
     | CRegisterByName _ _ => true
     | CHandleByName _ => true
     | CDropTable _ force => negb force
